@@ -44,6 +44,19 @@ def run(c, chk):
         from . import c08 as _c08g
         chk.rule('R13.13', 'no include budget survives a parse: neither unit has a mutable global outside the reset disciplines (rule R8.0 of C08)')
         _c08g.classified_globals(c, chk, rid='R13.13', rid5='R13.13')
+        # R13.14: a failure inside an included file is an ordinary error: what the unwinding released is not released again by the entry
+        # point (rule R7.2 of C07: no double release, no dangling owner)
+        from . import c07 as _c07g, c02 as _c02g
+        chk.rule('R13.14', 'after a parse refused inside an included file nothing is released twice (rule R7.2 of C07)')
+        sub7 = report.SubCheck(chk, 'R13.14', 'C07', only=('R7.2',))
+        _c07g.run(c, sub7)
+        sub7.done('released pointers')
+        # R13.15: the scratch buffer is released at the end of an included file; the first comment or string after it finds none and
+        # must get one (rule R2.4 of C02: every token value is provably non-null)
+        chk.rule('R13.15', 'a token read after the end of an included file has a value: the scratch buffer is (re)created by the write that needs it (rule R2.4 of C02)')
+        sub2 = report.SubCheck(chk, 'R13.15', 'C02', only=('R2.4',))
+        _c02g.run(c, sub2)
+        sub2.done('token values')
 
     # R13.11: an include is resolved through the search path every section borrows from the root: nothing that happens to a
     # section between two includes (replaced by a repeated title, removed) may release that list
